@@ -48,26 +48,39 @@ func readersFor(k *h.Keys, img []byte, f0 *sif.FileImage, sc *sharedCallbacks) [
 	si, _ := h.DecodeImage(img)
 	// one Verifier per handle, used by every goroutine: without a callback, and with one
 	// whose reports are checked against those of a run alone
-	sv, svErr := integrity.NewVerifier(f0, verifierOpts(k)...)
-	sv2, sv2Err := integrity.NewVerifier(f0, append(verifierOpts(k), integrity.OptVerifyCallback(func(r integrity.VerifyResult) bool {
-		var ks []string
-		for _, key := range r.Keys() {
-			ks = append(ks, fmt.Sprintf("%T", key))
+	// (f0 == nil: no shared verifier, nothing touches the handle before the readers do)
+	var sv, sv2 *integrity.Verifier
+	svErr, sv2Err := error(nil), error(nil)
+	if f0 == nil {
+		svErr, sv2Err = fmt.Errorf("not built"), fmt.Errorf("not built")
+	} else {
+		sv, svErr = integrity.NewVerifier(f0, verifierOpts(k)...)
+	}
+	mk2 := func() (*integrity.Verifier, error) {
+		if f0 == nil {
+			return nil, fmt.Errorf("not built")
 		}
-		fp := ""
-		if e := r.Entity(); e != nil {
-			fp = fmt.Sprintf("%x", e.PrimaryKey.Fingerprint)
-		}
-		line := fmt.Sprintf("sig %d verified %d keys %v entity %s err=%v", r.Signature().ID(), len(r.Verified()), ks, fp, r.Error())
-		sc.mu.Lock()
-		if sc.learn {
-			sc.allowed[line] = true
-		} else if !sc.allowed[line] {
-			sc.bad = append(sc.bad, line)
-		}
-		sc.mu.Unlock()
-		return false
-	}))...)
+		return integrity.NewVerifier(f0, append(verifierOpts(k), integrity.OptVerifyCallback(func(r integrity.VerifyResult) bool {
+			var ks []string
+			for _, key := range r.Keys() {
+				ks = append(ks, fmt.Sprintf("%T", key))
+			}
+			fp := ""
+			if e := r.Entity(); e != nil {
+				fp = fmt.Sprintf("%x", e.PrimaryKey.Fingerprint)
+			}
+			line := fmt.Sprintf("sig %d verified %d keys %v entity %s err=%v", r.Signature().ID(), len(r.Verified()), ks, fp, r.Error())
+			sc.mu.Lock()
+			if sc.learn {
+				sc.allowed[line] = true
+			} else if !sc.allowed[line] {
+				sc.bad = append(sc.bad, line)
+			}
+			sc.mu.Unlock()
+			return false
+		}))...)
+	}
+	sv2, sv2Err = mk2()
 	var ids []uint32
 	groups := map[uint32]bool{}
 	for _, d := range si.Descs {
@@ -309,6 +322,71 @@ func runConcurrent(seed uint64, n int, out, tmp string) summary {
 			s.Cases++
 			s.Backends[backend]++
 			s.OracleRuns["concurrent-equals-alone"] += 4 * 12 * 20
+		}
+		// a handle with a past: it has just deleted the lowest object of a group and is read by
+		// many goroutines at once before any sequential call (whatever the handle caches is then
+		// filled in concurrently)
+		si, _ := h.DecodeImage(img)
+		var victim uint32
+		members := map[uint32]int{}
+		for _, d := range si.Descs {
+			if d.Used && d.Type != h.DataSignature && d.GroupID() != 0 {
+				members[d.GroupID()]++
+			}
+		}
+		for _, d := range si.Descs {
+			if d.Used && d.Type != h.DataSignature && d.GroupID() != 0 && members[d.GroupID()] >= 2 && victim == 0 {
+				victim = d.ID // the lowest ID of its group: descriptors are in ID order here
+			}
+		}
+		if victim != 0 {
+			past := func() (*sif.FileImage, []byte) {
+				bb := sif.NewBuffer(bytes.Clone(img))
+				f, err := sif.LoadContainer(bb, sif.OptLoadWithCloseOnUnload(false))
+				if err != nil {
+					panic(err)
+				}
+				if err := f.DeleteObject(victim, sif.OptDeleteDeterministic()); err != nil {
+					panic(err)
+				}
+				return f, bytes.Clone(bb.Bytes())
+			}
+			fA, imgA := past()
+			sc := &sharedCallbacks{learn: true, allowed: map[string]bool{}}
+			rsA := readersFor(k, imgA, nil, sc)
+			alone := make([]string, len(rsA))
+			for j, rd := range rsA {
+				alone[j] = rd.run(fA)
+			}
+			sc.learn = false
+			for _, procs := range []int{2, 16} {
+				f, _ := past()
+				rs := readersFor(k, imgA, nil, sc)
+				old := runtime.GOMAXPROCS(procs)
+				var wg sync.WaitGroup
+				var mu sync.Mutex
+				for g := 0; g < 12; g++ {
+					wg.Add(1)
+					gr := r.Fork()
+					go func() {
+						defer wg.Done()
+						for c := 0; c < 10; c++ {
+							j := gr.Intn(len(rs))
+							if got := guarded(rs[j], f); got != alone[j] {
+								mu.Lock()
+								s.Oracle = append(s.Oracle, h.Finding{Property: "C18", Case: i,
+									What:  fmt.Sprintf("%s returned a different result when run concurrently on a handle that had just deleted object %d (GOMAXPROCS=%d): %.160q, alone %.160q", rs[j].name, victim, procs, got, alone[j]),
+									Input: info.Desc})
+								mu.Unlock()
+							}
+						}
+					}()
+				}
+				wg.Wait()
+				runtime.GOMAXPROCS(old)
+				s.Steps += 12 * 10
+			}
+			s.OracleRuns["concurrent-equals-alone-after-a-delete"] += 2 * 12 * 10
 		}
 	}
 	s.Distinct = s.Cases
